@@ -57,7 +57,9 @@ def gen_text(rng, voc):
         return rng.choice(['[' * d + 'a' + ']' * d, '(' * d + ')' * d, '[' * d, 'a(' + '[' * d + '1' + ']' * d + ')',
                            '"' * d, 'a' + '.b' * d, 'a:' * d, '!' * d, ',' * d, '9' * 5000, 'a(' + '9' * 5000 + ')',
                            '1' * 30 + 'b', '1e400', 'a(1e400)', 'a(nan)', 'a(-inf)', '0x10', 'a(x=[)', '=', '(=)', '.', ':', '@', '#',
-                           'a@@1', 'a#1#2', '1a1', 'a@b', '@1', '#a', 'nil', 'a(nil=nil)', '[!]', '(!)', '.(!)', 'a ! ', ' ! a', '*!*'])
+                           'a@@1', 'a#1#2', '1a1', 'a@b', '@1', '#a', 'nil', 'a(nil=nil)', '[!]', '(!)', '.(!)', 'a ! ', ' ! a', '*!*',
+                           # wildcard identifiers as argument values (they are compared with the types of object and nil arguments)
+                           '(wl_*)', '(*_buffer)', '(x=wl_*)', '(vsim_*)', '(a0=*_*)', '(*l*)', '.(w*, nil)', '(! wl_*)'])
     if r < 0.85:
         return ''.join(rng.choice(UNICODE_BITS + list('ab.(),![]')) for _ in range(rng.randint(1, 12)))
     return ''.join(chr(rng.choice([rng.randint(32, 126), rng.randint(0xa0, 0x2fff), rng.randint(0x1f300, 0x1f6ff)]))
